@@ -195,5 +195,6 @@ func (w *MIDIWriter) Marker(text string) {
 }
 
 func (w *MIDIWriter) Close() {
-	w.addAll(0, &Close{})
+	// a trailing rest is still pending here: it belongs to the piece
+	w.addAll(w.getTickDeltaAndClear(), &Close{})
 }
